@@ -65,6 +65,22 @@ Fixpoint off_collect (ak : akind) (sc : script) (st : ostate) (os : list orc) : 
               let '(st2, l) := off_collect ak sc st1 r in (st2, t :: l)
   end.
 
+(* ---- a callback that returns False (stop request) ----
+   collect_rollouts returns right after env.step and callback.on_step(): the transition is NOT stored and _last_obs /
+   _last_original_obs are NOT advanced, while the environment has moved on.  learn() ends there; a later
+   learn(reset_num_timesteps=False) continues from the stale observation.
+   [off_collect_s]: like off_collect, every oracle entry carries the flag "the callback returned False at this step". *)
+Definition off_step_stopped (sc : script) (st : ostate) : ostate :=
+  mkOS (fst (vstep1 sc (os_cur st))) (os_obs st).
+
+Fixpoint off_collect_s (ak : akind) (sc : script) (st : ostate) (os : list (orc * bool)) : ostate * list trans :=
+  match os with
+  | [] => (st, [])
+  | (o, false) :: r => let '(st1, t, _) := off_step ak sc st o in
+                       let '(st2, l) := off_collect_s ak sc st1 r in (st2, t :: l)
+  | (_, true) :: r => off_collect_s ak sc (off_step_stopped sc st) r
+  end.
+
 (* ---- the loops that decide how many steps are taken ---- *)
 Inductive tfreq := TfStep (f : Z) | TfEpis (f : Z).
 Definition off_more (tf : tfreq) (steps eps : Z) : bool :=
@@ -141,3 +157,8 @@ Fixpoint show_calls (rel abs : Q) (rs : list (list trans * Z * nat * bool)) (imp
 Definition check_off (rel abs : Q) (ak : akind) (sc : script) (ne : Z) (tf : tfreq) (calls : list ocall)
            (impl : list (list (list Q * list Q))) :=
   show_calls rel abs (off_learns ak sc ne tf calls ostate0 0) impl.
+
+(* stop-aware log, for the correspondence: (obs, next, r4, done, timeout) of every add *)
+Definition show_collect_s (ak : akind) (sc : script) (reset_first : bool) (os : list (orc * bool)) : list (Z * Z * Z * bool * bool) :=
+  map (fun t => (t_obs t, t_next t, t_r4 t, t_done t, t_timeout t))
+      (snd (off_collect_s ak sc (if reset_first then os_reset sc ostate0 else ostate0) os)).
